@@ -15,7 +15,12 @@ from .model import subprograms  # noqa: E402
 
 
 def names_rows(rows):
-    """Library rows (Mapping tag -> value) to list of dict name -> value."""
+    """Library rows (Mapping tag -> value) to list of dict name -> value.
+
+    The row objects are collected first and converted afterwards, as a caller doing
+    ``list(engine.execute(rel))`` would see them: a row mapping that the engine goes on to modify
+    after handing it out (rows shared between branches of a tree) shows up in the values."""
+    rows = list(rows)
     return [{t.qualified_name: v for t, v in r.items()} for r in rows]
 
 
